@@ -164,6 +164,18 @@ Compact == /\ IsEvent("compact") /\ NoErr
            /\ Acct(Ev)
            /\ ReadsOk(Ev, all, keys)
 
+\* Another face of the open finding RecoverLevelsFromMetadata: once recover() has put overlapping files into one
+\* level (the deviation fired earlier in this run and some level >= 1 still holds overlapping files), the tree's own
+\* assertion that a level is sorted and disjoint can trip in a later compaction step.  The executor ends the run
+\* there.  Admitted only in exactly that situation; any other failing step has no action and rejects the trace.
+CompactTripsOnOverlap ==
+  /\ IsEvent("compact") /\ "err" \in DOMAIN Ev
+  /\ "errclass" \in DOMAIN Ev /\ Ev.errclass = "level-order-assert"
+  /\ "RecoverLevelsFromMetadata" \in Dev /\ "RecoverLevelsFromMetadata" \in devUsed
+  /\ ~LevelsDisjoint(levels, files)
+  /\ PrintT(<<"DEV-USED", "RecoverLevelsFromMetadata", l>>)
+  /\ UNCHANGED <<keys, mem, levels, files, all, gcd, devUsed, acct>>
+
 \* clean close and reopen: the memtable comes back as an SST recovered from the log; levels are rebuilt.
 \* Known finding "RecoverLevelsFromMetadata" (when listed in Dev): recover() cannot tell from key and
 \* timestamp ranges alone which of two overlapping files was above the other and puts both into one
@@ -235,7 +247,7 @@ Skip == /\ IsEvent("skip") /\ NoErr
         /\ Acct(Ev)
         /\ ReadsOk(Ev, all, keys)
 
-TraceNext == Hold \/ HeldStep \/ HeldDrop \/ Skip \/ Open \/ Write \/ Flush \/ Ingest \/ Compact \/ Reopen \/ Verify \/ ScanProg
+TraceNext == Hold \/ HeldStep \/ HeldDrop \/ Skip \/ Open \/ Write \/ Flush \/ Ingest \/ Compact \/ CompactTripsOnOverlap \/ Reopen \/ Verify \/ ScanProg
 TraceSpec == TraceInit /\ [][TraceNext]_vars
 
 (* invariants evaluated in every state of the trace *)
